@@ -139,9 +139,9 @@ func c19GoodField(t *rapid.T, dt storage.DataType, sep string) (string, c19Val) 
 func c19BadField(t *rapid.T, dt storage.DataType) (string, bool) {
 	switch dt {
 	case storage.TypeInt:
-		return rapid.SampledFrom([]string{"abc", "", "1.5", "1e3", "0x10", "1_000", "12x", " 5", "2147483648", "-2147483649", "99999999999999999999", "--1"}).Draw(t, "badint"), true
+		return rapid.SampledFrom([]string{"abc", "", "1.5", "1e3", "0x10", "1_000", "12x", " 5", "2147483648", "-2147483649", "99999999999999999999", "--1", "-", "+", "+-1", "- 1"}).Draw(t, "badint"), true
 	case storage.TypeBigInt:
-		return rapid.SampledFrom([]string{"abc", "", "1.5", "0x10", "1_000", "0b1", "0o7", "9223372036854775808", "12 ", "true"}).Draw(t, "badbig"), true
+		return rapid.SampledFrom([]string{"abc", "", "1.5", "0x10", "1_000", "0b1", "0o7", "9223372036854775808", "12 ", "true", "-", "+", "-+2"}).Draw(t, "badbig"), true
 	case storage.TypeBoolean:
 		return rapid.SampledFrom([]string{"yes", "no", "", "2", "tru", "ff", "10", " true", "y", "-1", "Yes", "Yes", "No", "N/A", "N/A", "TRUE1", "Y"}).Draw(t, "badbool"), true
 	}
@@ -173,8 +173,18 @@ func c19Gen(t *rapid.T) c19Case {
 		readers[s] = append(readers[s], mi)
 	}
 	nrec := rapid.IntRange(1, 25).Draw(t, "nrec")
+	badFrom, badTo := -1, -1
+	if rapid.IntRange(0, 39).Draw(t, "badrun") == 17 {
+		// a long file with a long stretch of bad records in its middle: the records after it count too
+		nrec = rapid.IntRange(70, 140).Draw(t, "nrec_long")
+		badFrom = rapid.IntRange(0, 10).Draw(t, "badfrom")
+		badTo = badFrom + rapid.SampledFrom([]int{49, 50, 51, 60, 100}).Draw(t, "badlen")
+	}
 	for len(c.Records) < nrec {
 		class := rapid.SampledFrom([]string{"valid", "valid", "valid", "valid", "null", "null", "badvalue", "short", "barequote", "afterquote", "extrafields", "oversize"}).Draw(t, "class")
+		if i := len(c.Records); i >= badFrom && i < badTo {
+			class = rapid.SampledFrom([]string{"barequote", "afterquote"}).Draw(t, "badclass")
+		}
 		width := maxSrc + 1 + rapid.IntRange(0, 2).Draw(t, "extra")
 		rec := c19Record{Class: class, Accept: true, Want: make([]c19Val, len(c.DstCols))}
 		fields := make([]c19Field, width)
